@@ -60,7 +60,7 @@ ASSUME ByzDigests \subseteq Digests
 Init ==
   /\ input \in [Honest -> Payloads]
   /\ byz1 \in [Byz \X Honest -> Payloads \cup (IF AllowOmit THEN {0} ELSE {})]
-  /\ byz2 \in [{<<e, p, id>> \in Byz \X Honest \X Parties : id # e /\ id # p} -> ByzDigests]
+  /\ byz2 \in [{t \in Byz \X Honest \X Parties : t[3] # t[1] /\ t[3] # t[2]} -> ByzDigests]
   /\ byz2sent \in [Byz \X Honest -> IF AllowOmit THEN BOOLEAN ELSE {TRUE}]
   /\ round = 0
   /\ recv = [p \in Honest |-> [s \in Others(p) |-> 0]]
